@@ -10,8 +10,8 @@ package simrt
 
 import (
 	"fmt"
-	"os"
 	"hash/fnv"
+	"os"
 	"runtime"
 	"sort"
 	"strings"
@@ -152,12 +152,26 @@ type Sim struct {
 	trace      uint64
 	probes     map[string]uint64
 	hooks      []stepHook
+	siteHooks  []siteHook
+	sitePend   int // site hooks not armed yet
 	pctPts     map[uint64]bool
 	delayKey   uint64
 	// TraceOut, when non-nil, receives one line per scheduling step (replay rendering).
 	TraceOut *[]string
 	start    time.Time
 	fast     bool
+}
+
+// siteHook: an environment action placed relative to a point of the system's own protocol ("right after the
+// pool started", "while the stages worker moves on"): the nth time any task reaches a yield site matching pat,
+// fn is scheduled plus steps later.
+type siteHook struct {
+	pat   string
+	nth   int
+	plus  uint64
+	fn    func()
+	seen  int
+	armed bool
 }
 
 type stepHook struct {
@@ -259,6 +273,34 @@ func (s *Sim) AtStep(step uint64, fn func()) {
 	s.mu.Unlock()
 }
 
+// AtSite registers fn to be executed by the scheduler plus steps after the nth arrival of any task at a yield
+// site whose name contains one of the |-separated substrings of pat.
+func (s *Sim) AtSite(pat string, nth int, plus uint64, fn func()) {
+	s.mu.Lock()
+	s.siteHooks = append(s.siteHooks, siteHook{pat: pat, nth: nth, plus: plus, fn: fn})
+	s.sitePend++
+	s.mu.Unlock()
+}
+
+// siteSeen (s.mu held) arms the site hooks that are due at this arrival; it reports whether one was armed.
+func (s *Sim) siteSeen(site string) bool {
+	armed := false
+	for i := range s.siteHooks {
+		h := &s.siteHooks[i]
+		if h.armed || !matchAny(site, h.pat) {
+			continue
+		}
+		h.seen++
+		if h.seen >= h.nth {
+			h.armed = true
+			armed = true
+			s.sitePend--
+			s.hooks = append(s.hooks, stepHook{step: atomic.LoadUint64(&s.clock) + h.plus, fn: h.fn})
+		}
+	}
+	return armed
+}
+
 // Yield is the scheduling point inserted by the instrumenter.
 func Yield(site string) {
 	s := active.Load()
@@ -311,7 +353,8 @@ const fastMax = 48
 
 func (s *Sim) fastYield(g uint64, site string) bool {
 	s.mu.Lock()
-	if s.killed || s.cur == nil || s.cur.goid != g || s.fastRun >= fastMax {
+	if s.killed || s.cur == nil || s.cur.goid != g || s.fastRun >= fastMax || s.sitePend > 0 {
+		// (site hooks: every arrival goes through park, which counts it)
 		s.mu.Unlock()
 		return false
 	}
@@ -373,6 +416,9 @@ func (s *Sim) park(g uint64, site string, pred func() bool, acquire func()) {
 	t.site = site
 	t.pred = pred
 	t.acquire = acquire
+	if s.sitePend > 0 {
+		s.siteSeen(site)
+	}
 	s.mu.Unlock()
 	select {
 	case s.arrive <- struct{}{}:
